@@ -166,17 +166,27 @@ def run_tlc(module, cfg=None, workers=8, timeout=600, simulate=None, depth=None,
     res.cmd = " ".join(cmd)
     t0 = time.time()
     timeout = timeout * load_scale()
+    proc = subprocess.Popen(cmd, cwd=SPEC, env=env, stdout=subprocess.PIPE, stderr=subprocess.STDOUT, text=True)
+    res.timed_out = False
     try:
-        p = subprocess.run(cmd, cwd=SPEC, env=env, stdout=subprocess.PIPE, stderr=subprocess.STDOUT,
-                           text=True, timeout=timeout)
+        out, _ = proc.communicate(timeout=timeout)
+        rc = proc.returncode
     except subprocess.TimeoutExpired:
+        proc.kill()
+        out, _ = proc.communicate()
         shutil.rmtree(meta, ignore_errors=True)
-        raise ToolError("TLC timeout after %ss: %s" % (timeout, res.cmd))
+        if simulate is None:
+            raise ToolError("TLC timeout after %ss: %s" % (timeout, res.cmd))
+        # a simulation is a time-boxed exploration: the behaviours generated until the limit count, the run is not an error
+        # (the last line may be cut off)
+        out = out[:out.rfind("\n") + 1] if out else ""
+        rc = 0
+        res.timed_out = True
     res.wall = time.time() - t0
     shutil.rmtree(meta, ignore_errors=True)
-    res.rc = p.returncode
-    res.out = p.stdout
-    res.lines = p.stdout.splitlines()
+    res.rc = rc
+    res.out = out
+    res.lines = out.splitlines()
     for ln in res.lines:
         m = re.match(r"^(\d+) states generated, (\d+) distinct states found", ln)
         if m:
@@ -203,6 +213,8 @@ def run_tlc(module, cfg=None, workers=8, timeout=600, simulate=None, depth=None,
             if m:
                 res.generated = int(m.group(1))
                 res.distinct = res.distinct or int(m.group(1))
+    if res.timed_out and res.generated == 0:
+        res.generated = res.distinct = sum(1 for ln in res.lines if ln.startswith('"'))
     if coverage:
         for ln in res.lines:
             m = re.match(r"^<(\w+) line \d+, col \d+ to line \d+, col \d+ of module (\w+)>: (\d+):(\d+)", ln)
@@ -251,6 +263,12 @@ def _limits(mem_gb):
         except Exception:
             pass
         os.setsid()
+        try:
+            # a worker must not outlive the driver (a query that never ends would spin for ever once nobody watches it)
+            import ctypes
+            ctypes.CDLL("libc.so.6", use_errno=True).prctl(1, 9, 0, 0, 0)      # PR_SET_PDEATHSIG, SIGKILL
+        except Exception:
+            pass
     return f
 
 
